@@ -13,7 +13,7 @@ one() {
   D=$(mktemp -d /var/tmp/mut.XXXXXX)
   rsync -a --exclude .git /repo/ "$D/"
   if ! (cd "$D" && patch -p1 -s --no-backup-if-mismatch < "/verif/$d/patch.diff" >/dev/null 2>&1); then echo "$id NOAPPLY" > "$OUT/$id"; rm -rf "$D"; return; fi
-  out=$(/verif/bin/stackcheck -verif "$D" -repo "$D" -prop "$prop" -evidence "$D/ev.json" 2>&1)
+  out=$(/verif/bin/stackcheck -verif /verif -repo "$D" -prop "$prop" -evidence "$D/ev.json" 2>&1)
   rc=$?
   if [ $rc -eq 1 ]; then
     echo "$id DETECTED $(echo "$out" | grep -E '\[(violated|undecided)\]' | grep -v 'L5 ' | grep -v '<floor>' | head -1 | sed "s#$D#SCRATCH#g" | cut -c1-160)" > "$OUT/$id"
